@@ -20,9 +20,15 @@ pub fn eid_canonical(e: &EndpointID) -> bool {
 }
 
 /// The C01 domain ("well-formed bundle value").
-pub fn wf(b: &Bundle) -> bool {
+pub fn wf(b: &Bundle) -> bool { wf_with(b, false) }
+
+/// The same with CRC type codes the library does not know (3..=255) allowed: such blocks carry no CRC
+/// field and never verify, but they still have to survive encode / decode unchanged.
+pub fn wf_x(b: &Bundle) -> bool { wf_with(b, true) }
+
+fn wf_with(b: &Bundle, unknown_crc: bool) -> bool {
     let p = &b.primary;
-    let crc_ok = |c: &CrcValue| !matches!(c, CrcValue::Unknown(_));
+    let crc_ok = |c: &CrcValue| match c { CrcValue::Unknown(k) => unknown_crc && *k >= 3, _ => true };
     if !crc_ok(&p.crc) || !eid_canonical(&p.destination) || !eid_canonical(&p.source) || !eid_canonical(&p.report_to) { return false; }
     if primary_version(p) > u32::MAX as u64 { return false; }
     if p.lifetime.subsec_nanos() % 1_000_000 != 0 || p.lifetime.as_millis() > u64::MAX as u128 { return false; }
@@ -104,7 +110,9 @@ pub fn exec(line: &str, model: &mut Model) -> Option<Exec> {
             let mut e = Exec::new(format!("ok {} {}", hex(&bytes), show_bundle(&b1)));
             e.tags.push(format!("blocks:{}", match b.canonicals.len() { 0 => "0".into(), 1..=4 => "1-4".into(), 5..=21 => "5-21".to_string(), 22..=23 => "22-23".into(), 24..=255 => "24-255".into(), _ => "256+".to_string() }));
             e.tags.push(format!("wf:{}", is_wf));
-            if is_wf {
+            let is_wfx = wf_x(&b);
+            if is_wfx && !is_wf { e.tags.push("unknown-crc-type:true".into()); }
+            if is_wf || is_wfx {
                 // C01: round trip, determinism, idempotence, only CRC values change
                 let back = no_panic(|| Bundle::try_from(bytes.as_slice()));
                 match &back {
@@ -112,6 +120,11 @@ pub fn exec(line: &str, model: &mut Model) -> Option<Exec> {
                     Some(Ok(d)) => e.oracle_fail = Some(format!("decode(encode(b)) differs from b: {}", show_bundle(d))),
                     Some(Err(err)) => e.oracle_fail = Some(format!("own encoding rejected by the decoder: {}", err)),
                     None => e.oracle_fail = Some("decoder panics on own encoding".into()),
+                }
+                // the same bytes through a reader (nothing can be borrowed from the input)
+                if e.oracle_fail.is_none() {
+                    let rd = no_panic(|| serde_cbor::from_reader::<Bundle, _>(bytes.as_slice()).ok()).flatten();
+                    if rd.as_ref() != Some(&b1) { e.oracle_fail = Some("decode(encode(b)) through serde_cbor::from_reader differs from b".into()); }
                 }
                 let mut b2 = b1.clone();
                 let again = no_panic(|| b2.to_cbor());
@@ -121,7 +134,7 @@ pub fn exec(line: &str, model: &mut Model) -> Option<Exec> {
                 if erase_crc(&b1) != erase_crc(&b) { e = e.fail(Some("encoding changed something other than stored CRC values".into())); }
                 // C04
                 e = e.fail(wire_crc_fail(&b1, &bytes));
-                if let Some(Ok(mut d)) = back { if !d.crc_valid() { e = e.fail(Some("freshly encoded bundle fails crc_valid after decoding".into())); } }
+                if let (true, Some(Ok(mut d))) = (is_wf, back) { if !d.crc_valid() { e = e.fail(Some("freshly encoded bundle fails crc_valid after decoding".into())); } }
             }
             Some(e)
         }
@@ -164,7 +177,7 @@ pub fn exec(line: &str, model: &mut Model) -> Option<Exec> {
             let (j, b1) = match r { Some(x) => x, None => { let mut e = Exec::new("panic".into()); e.oracle_fail = Some("to_json panics".into()); return Some(e); } };
             let back = no_panic(|| Bundle::try_from(j.clone()));
             let mut e = Exec::new(format!("ok {} {} rt={}", hex(j.as_bytes()), show_bundle(&b1), match &back { None => "panic".to_string(), Some(Ok(d)) => format!("ok {}", show_bundle(d)), Some(Err(_)) => "err".to_string() }));
-            if wf(&b) {
+            if wf_x(&b) {
                 match &back {
                     Some(Ok(d)) if *d == b1 => {}
                     Some(Ok(d)) => e.oracle_fail = Some(format!("JSON round trip yields a different bundle: {}", show_bundle(d))),
@@ -272,6 +285,13 @@ pub fn generate(prop: &str, ctx: &mut Ctx, rep: &mut Report, emit: &mut dyn FnMu
     for i in 0..n {
         let mut b = gen_bundle(&mut rng, &Opts { wf: true, max_blocks: if i % 50 == 0 { 300 } else { 30 } });
         if prop == "C04" && i % 2 == 0 { mutate_after_crc(&mut rng, &mut b); }
+        if (prop == "C01" || prop == "C15") && i % 9 == 4 {
+            // CRC type codes the library does not know, on fragments and non-fragments alike
+            let k = *rng.pick(&[3u8, 4, 23, 24, 255]);
+            match rng.below(3) { 0 => b.primary.crc = CrcValue::Unknown(k), 1 => { if let Some(c) = b.canonicals.last_mut() { c.crc = CrcValue::Unknown(k); } }
+                _ => { b.primary.crc = CrcValue::Unknown(k); for c in b.canonicals.iter_mut() { if rng.chance(1, 2) { c.crc = CrcValue::Unknown(3 + rng.below(253) as u8); } } } }
+            if rng.chance(1, 2) { b.primary.bundle_control_flags |= 1; b.primary.fragmentation_offset = rng.u64b(); b.primary.total_data_length = rng.u64b(); }
+        }
         emit(ctx, rep, format!("{} {}", op, show_bundle(&b)));
         if prop == "C01" && i % 4 == 0 {
             // decode side on its own: the encoded form as a `dec` line
@@ -279,7 +299,7 @@ pub fn generate(prop: &str, ctx: &mut Ctx, rep: &mut Report, emit: &mut dyn FnMu
             if let Some(bytes) = no_panic(|| c.to_cbor()) { emit(ctx, rep, format!("dec {}", hex(&bytes))); }
         }
     }
-    if prop == "C04" || prop == "C01" {
+    if prop == "C04" || prop == "C01" || prop == "C03" || prop == "C02" {
         for b in special_crc_bundles(&mut rng) { emit(ctx, rep, format!("{} {}", op, show_bundle(&b))); }
     }
     if prop == "C04" {
